@@ -42,6 +42,12 @@ def make_site(rng, i, depth):
     def text(t):
         return gen.layout(t, rng, handwritten=0.15) if noncanon else gen.expr(t)
 
+    if rng.random() < 0.06:
+        # evaluated (module level) but never compared in this session - e.g. the snapshot of a deselected test:
+        # nothing is pending, only `update` may touch it and must not change its value
+        p = c02_old_tree(rng, depth)
+        s.update(op="eq", place="module", old=gen.layout(p, rng, handwritten=0.5), obs=[], sig="never-compared/" + gen.kind_sig(p, 1))
+        return s
     if op in ("eq", "req"):
         p = c02_old_tree(rng, depth)
         r = rng.random()
@@ -284,6 +290,11 @@ def run_shard(args):
                 got = reported[sid] - {"update"}
                 key = "+".join(sorted(pend)) or "none"
                 C["pending_by_model"][key] = C["pending_by_model"].get(key, 0) + 1
+                if str(s["sig"]).startswith("never-compared"):
+                    C["never_compared_site_F_checked"] = C.get("never_compared_site_F_checked", 0) + 1
+                    if "update" in reported[sid]:
+                        C["never_compared_with_pending_update"] = C.get("never_compared_with_pending_update", 0) + 1
+                        out["signatures"].add(f"never-compared/update-pending/{'+'.join(sorted(F)) or '-'}/{s['sig']}")
                 if str(s["sig"]).startswith("poset"):
                     pk = "partial_order_bound_sites_" + key
                     C[pk] = C.get(pk, 0) + 1
